@@ -108,7 +108,12 @@ def run_case(case: dict) -> dict:
         pts = sorted({float(p) for p in pts})
         counters[f"grid:{kind}"] = 1
         main = {"op": "protocol_tc", "steps": steps, "points": pts, "relative": rel}
-    for op in [*pre, main]:
+    mains = [main]
+    if form == "protocol_tc" and main["relative"] and kind != "illegal" and rng.random() < 0.6:
+        # the same relative grid (the same array object) used for a second protocol run that continues the first
+        mains.append({"op": "protocol_tc", "steps": gen_protocol(rng, list(net.params)) if rng.random() < 0.5 else steps, "points": pts, "relative": True})
+        counters["relative_grid_array_reused_for_a_second_run"] = 1
+    for op in [*pre, *mains]:
         if op["op"] == "protocol_tc" and not op.get("relative"):
             # absolute grid: points are given in absolute model time
             op = dict(op)
